@@ -249,6 +249,9 @@ func (server *GripServer) BulkAdd(stream gripql.Edit_BulkAddServer) error {
 		// close and switch when a new graph is encountered
 		if element.Graph != graphName {
 			close(elementStream)
+			// the loader of the previous graph must be done before the next one starts:
+			// a later segment for the same graph has to be written after the earlier one
+			wg.Wait()
 			gdb, err := server.getGraphDB(element.Graph)
 			if err != nil {
 				errorCount++
@@ -266,16 +269,17 @@ func (server *GripServer) BulkAdd(stream gripql.Edit_BulkAddServer) error {
 			elementStream = make(chan *gdbi.GraphElement, 100)
 
 			wg.Add(1)
-			go func() {
+			// each loader reads its own channel: elementStream is reassigned at the next switch
+			go func(graphStream chan *gdbi.GraphElement) {
 				log.WithFields(log.Fields{"graph": element.Graph}).Info("BulkAdd: streaming elements to graph")
-				err := graph.BulkAdd(elementStream)
+				err := graph.BulkAdd(graphStream)
 				if err != nil {
 					log.WithFields(log.Fields{"graph": element.Graph, "error": err}).Error("BulkAdd: error")
 					// not a good representation of the true number of errors
 					errorCount++
 				}
 				wg.Done()
-			}()
+			}(elementStream)
 		}
 
 		if element.Vertex != nil {
